@@ -123,16 +123,17 @@ Proof.
 Qed.
 
 Lemma step_thread_lst var st t st' : v_recover_own var = true -> v_save_rehome var = true -> v_add_locked var = true ->
+  v_retry_recheck var = true ->
   step_thread var st t = Some st' -> inv_managed st -> inv_coh st -> inv_acc st -> inv_lst st -> inv_lst st'.
 Proof.
-  unfold step_thread. intros Vown Vre Vadd H M IC IA L. rewrite Vown, Vre, Vadd in H.
+  unfold step_thread. intros Vown Vre Vadd Vrt H M IC IA L. rewrite Vown, Vre, Vadd in H.
   destruct (nth_error (threads st) t) as [th|] eqn:Hth; [|discriminate].
   pose proof (ic_thr st IC t th Hth) as Tc. unfold thread_ok in Tc.
   pose proof (il_thr st L t th Hth) as [Tout Tp].
-  destruct (tpc th) as [| i | i | g s v | r] eqn:Hpc; try discriminate.
+  destruct (tpc th) as [rt | i | i | g s v | r] eqn:Hpc; try discriminate.
   - (* PStart *)
     destruct (nth_error (caches st) (tcache th)) as [ca|] eqn:Hca; [|discriminate].
-    destruct (creleased ca) eqn:Hrel; [discriminate|].
+    destruct (creleased ca) eqn:Hrel; [discriminate|]. rewrite (blind_retry_off var rt Vrt) in H.
     destruct (managed_cur st _ ca M L Hca Hrel) as [Hcur Hcl].
     destruct (find_entry (tcache th) (tkey th) (entries st)) as [i|] eqn:Hf.
     + destruct (find_entry_some _ _ _ _ Hf) as (en & Hen & Hatt & Hc & Hk).
